@@ -51,9 +51,9 @@ theorem errorResponse_props (len : Nat) (hdr : Option (Bytes × Bytes)) :
   | none => exact ⟨rfl, rfl⟩
   | some p => obtain ⟨n, v⟩ := p; exact ⟨rfl, rfl⟩
 
-theorem setup_mustClose (c : Conn) (r : Resp) (code : Nat) (hk : c.keepalive = .mustClose) :
+theorem setup_mustClose (c : Conn) (r : Resp) (code : Nat) (hk : c.keepalive = .mustClose) (hu : r.upgrade = false) :
     (setupReplyProperties c r code).1 = .mustClose := by
-  have : keepalivePossible c r = .mustClose := by unfold keepalivePossible; simp [hk]
+  have : keepalivePossible c r = .mustClose := by unfold keepalivePossible; simp [hk, hu]
   unfold setupReplyProperties
   simp only [this]
   split
